@@ -16,6 +16,7 @@ import PyTealV.Gen.FieldTable
 import PyTealV.Check.Flow
 import PyTealV.Proofs.C04Legal
 import PyTealV.Models.LabelText
+import PyTealV.Proofs.AnnotLemmas
 namespace PyTealV.Proofs.C04
 
 -- the kernel evaluations below allocate heavily; checked one after the other they are several times
@@ -364,13 +365,20 @@ example : wf exDup 6 .app = false := by decide +kernel
 
 /-! ## 5. Label lines: subroutine names in the comment of the entry label
 
-`flatten.py` writes the subroutine's name, unescaped, into the `// name` comment that
-`TealLabel.assemble` puts on its own line before the routine's label.  The full claim "a label
-contributes exactly one instruction line, the label" is false for names containing a newline
-(`name_newline_counterexample`; finding `C04-name-newline`, replayed by the harness on the real
-compiler); it holds for every other name (`label_lines_partial`). -/
+`flatten.py` hands the subroutine's name, unescaped, to `TealLabel` as the comment of the routine's
+entry label.  Since the repair 90c7383 `TealLabel.assemble` cuts the comment with `str.splitlines()`
+and writes one `// piece` line per piece, so "a label contributes exactly one instruction line,
+the label" holds for EVERY comment (`label_lines`).  Before the repair the raw name followed
+`// ` and a `\n` in it put the rest of the name on TEAL lines of its own (finding `C04-name-newline`,
+now retired; `name_newline_regression` keeps the old text next to the new one).
 
-open PyTealV.Models.LabelText in
+The hypothesis `'\n' ∉ l` is about the LABEL, not the comment: `LabelReference` takes any string,
+but every label the compiler makes is `main_l<k>` or `re.sub("[^A-Za-z0-9]", "", name)_<index>`
+(`subLabel_no_newline` below discharges the hypothesis for the second form, for every name). -/
+
+section LabelLines
+open PyTealV.Models.LabelText PyTealV.Models.Annot
+
 theorem splitLines_noNewline : ∀ {l : List Char}, '\n' ∉ l → splitLines l = [l]
   | [], _ => rfl
   | c :: cs, h => by
@@ -378,7 +386,6 @@ theorem splitLines_noNewline : ∀ {l : List Char}, '\n' ∉ l → splitLines l 
     have hcs : '\n' ∉ cs := fun e => h (by simp [e])
     simp [splitLines, hc, splitLines_noNewline hcs]
 
-open PyTealV.Models.LabelText in
 theorem splitLines_append : ∀ {a b : List Char}, '\n' ∉ a → splitLines (a ++ '\n' :: b) = a :: splitLines b
   | [], b, _ => by simp [splitLines]
   | c :: cs, b, h => by
@@ -386,25 +393,140 @@ theorem splitLines_append : ∀ {a b : List Char}, '\n' ∉ a → splitLines (a 
     have hcs : '\n' ∉ cs := fun e => h (by simp [e])
     simp [splitLines, hc, splitLines_append hcs]
 
-open PyTealV.Models.LabelText in
+/-- a non-empty block of lines without `\n`, joined by `\n` and followed by `\n`, is read back line by line -/
+theorem splitLines_joinNl : ∀ (ls : List (List Char)) (rest : List Char), ls ≠ [] → (∀ p ∈ ls, '\n' ∉ p) →
+    splitLines (joinNl ls ++ '\n' :: rest) = ls ++ splitLines rest
+  | [], _, hne, _ => absurd rfl hne
+  | [a], rest, _, h => by simpa [joinNl] using splitLines_append (b := rest) (h a (by simp))
+  | a :: b :: ls, rest, _, h => by
+    have ih := splitLines_joinNl (b :: ls) rest (by simp) (fun p hp => h p (by simp [hp]))
+    have e : joinNl (a :: b :: ls) ++ '\n' :: rest = a ++ '\n' :: (joinNl (b :: ls) ++ '\n' :: rest) := by
+      simp [joinNl]
+    rw [e, splitLines_append (h a (by simp)), ih]
+    rfl
+
+theorem joinNl_toList : ∀ (ls : List String), ("\n".intercalate ls).toList = joinNl (ls.map String.toList)
+  | [] => by simp [joinNl]
+  | [a] => by simp [joinNl]
+  | a :: b :: ls => by
+    rw [String.intercalate_cons_cons, String.toList_append, String.toList_append, joinNl_toList (b :: ls)]
+    simp [joinNl]
+
+theorem headerPieces_toList (c : String) : (headerPieces c).map String.toList = piecesChars c.toList := by
+  unfold headerPieces piecesChars splitlines
+  cases h : splitlinesChars c.toList <;> simp
+
+theorem commentLines_toList (c : String) :
+    (headerCommentLines c).map String.toList = commentLinesChars c.toList := by
+  rw [commentLinesChars, ← headerPieces_toList]
+  simp [headerCommentLines, Function.comp_def, C18.toList_commentOp]
+
 /-- the text model on strings and on character lists agree -/
 theorem assemble_toList (c : Option String) (l : String) :
     (assemble c l).toList = assembleChars (c.map String.toList) l.toList := by
-  cases c <;> simp [assemble, assembleChars, String.toList_append]
+  cases c with
+  | none => simp [assemble, assembleChars, String.toList_append]
+  | some c =>
+    have h := joinNl_toList (headerCommentLines c)
+    rw [commentLines_toList] at h
+    simp only [assemble, assembleChars, String.toList_append, h, Option.map_some]
+    simp
 
-open PyTealV.Models.LabelText in
-/-- **For names without a newline** the label text is: an empty line, the comment line, the label line. -/
-theorem label_lines_partial {c l : List Char} (hc : '\n' ∉ c) (hl : '\n' ∉ l) :
-    splitLines (assembleChars (some c) l) = [[], '/' :: '/' :: ' ' :: c, l ++ [':']] := by
-  have h1 : assembleChars (some c) l = [] ++ '\n' :: (('/' :: '/' :: ' ' :: c) ++ '\n' :: (l ++ [':'])) := by
-    simp [assembleChars]
-  rw [h1, splitLines_append (by simp), splitLines_append (by simp [hc]), splitLines_noNewline (by simp [hl])]
+theorem piecesChars_ne_nil (c : List Char) : piecesChars c ≠ [] := by
+  unfold piecesChars
+  split
+  · simp
+  · assumption
 
-open PyTealV.Models.LabelText in
-/-- **Counterexample**: the name `f\nint 7` yields the extra line `int 7` between comment and label. -/
-theorem name_newline_counterexample :
+/-- `comment.splitlines() or [""]`: the pieces of `splitlines`, or one empty piece when there is none;
+    no piece contains any of the ten line boundaries of `str.splitlines()` -/
+theorem piecesChars_spec (c : List Char) :
+    (splitlinesChars c = [] → piecesChars c = [[]]) ∧
+    (splitlinesChars c ≠ [] → piecesChars c = splitlinesChars c) ∧
+    ∀ p ∈ piecesChars c, ∀ x ∈ p, isBreak x = false := by
+  refine ⟨fun h => by simp [piecesChars, h], fun h => ?_, ?_⟩
+  · unfold piecesChars; split
+    · contradiction
+    · rfl
+  · intro p hp
+    unfold piecesChars at hp
+    split at hp
+    · simp only [List.mem_singleton] at hp; subst hp; simp
+    · exact C18.splitlinesChars_piece_chars c p hp
+
+/-- **For every comment** `c` (any characters; no hypothesis) the label text, read line by line as
+    the assembler does, is: an empty line, then one line `// piece` per piece of `c.splitlines()`
+    (one line `// ` when there is no piece: `piecesChars_spec`), then the label line — and every one
+    of the comment lines has no tokens for the TEAL grammar, so the label is the only instruction
+    line.  (`'\n' ∉ l`: see the section header; `subLabel_no_newline`.) -/
+theorem label_lines (c l : List Char) (hl : '\n' ∉ l) :
+    splitLines (assembleChars (some c) l)
+      = [] :: ((piecesChars c).map (fun p => '/' :: '/' :: ' ' :: p) ++ [l ++ [':']]) ∧
+    ∀ ln ∈ (piecesChars c).map (fun p => '/' :: '/' :: ' ' :: p), tokenise (String.ofList ln) = [] := by
+  constructor
+  · have hp : ∀ ln ∈ commentLinesChars c, '\n' ∉ ln := by
+      intro ln hln hm
+      simp only [commentLinesChars, List.mem_map] at hln
+      obtain ⟨p, hp, rfl⟩ := hln
+      simp only [List.mem_cons] at hm
+      rcases hm with hm | hm | hm | hm
+      · exact absurd hm (by decide)
+      · exact absurd hm (by decide)
+      · exact absurd hm (by decide)
+      · exact (C18.not_break_ne ((piecesChars_spec c).2.2 p hp _ hm)).1 rfl
+    have hne : commentLinesChars c ≠ [] := by simpa [commentLinesChars] using piecesChars_ne_nil c
+    have h1 : assembleChars (some c) l = [] ++ '\n' :: (joinNl (commentLinesChars c) ++ '\n' :: (l ++ [':'])) := by
+      simp [assembleChars]
+    rw [h1, splitLines_append (by simp), splitLines_joinNl _ _ hne hp, splitLines_noNewline (by simp [hl])]
+    rfl
+  · intro ln hln
+    simp only [List.mem_map] at hln
+    obtain ⟨p, _, rfl⟩ := hln
+    exact C18.tokenise_slashes (' ' :: p)
+
+/-- the same on strings, for the text `assemble` returns -/
+theorem label_lines_string (c l : String) (hl : '\n' ∉ l.toList) :
+    splitLines (assemble (some c) l).toList
+      = [] :: ((headerCommentLines c).map String.toList ++ [(l ++ ":").toList]) ∧
+    ∀ ln ∈ headerCommentLines c, tokenise ln = [] := by
+  constructor
+  · rw [assemble_toList, Option.map_some, (label_lines c.toList l.toList hl).1, commentLines_toList]
+    simp [commentLinesChars]
+  · intro ln hln
+    simp only [headerCommentLines, List.mem_map] at hln
+    obtain ⟨p, _, rfl⟩ := hln
+    exact C18.comment_line_vanishes p
+
+/-- the label of a subroutine (`resolveSubroutines`: sanitised name, `_`, index) never contains a
+    line feed, whatever the name: the hypothesis of `label_lines` holds for every routine header -/
+theorem subLabel_no_newline (name : String) (idx : Nat) : '\n' ∉ (subLabel name idx).toList := by
+  intro hm
+  have e : (subLabel name idx).toList = name.toList.filter isAlnum ++ '_' :: Nat.toDigits 10 idx := by
+    simp [subLabel, sanitise]
+  rw [e] at hm
+  simp only [List.mem_append, List.mem_cons, List.mem_filter] at hm
+  rcases hm with ⟨_, hm⟩ | hm | hm
+  · exact absurd hm (by decide)
+  · exact absurd hm (by decide)
+  · have := Nat.isDigit_of_mem_toDigits (by decide) (by decide) hm
+    exact absurd this (by decide)
+
+/-- **Regression example**: for the name `f\nint 7` the OLD text (`assembleCharsOld`, the raw name after
+    `// `) had the extra line `int 7` between comment and label; the text of the repaired code has
+    two comment lines and no other line.  More boundaries: `\r\n` is one, a trailing one adds no
+    piece, the empty comment gives one `// ` line. -/
+theorem name_newline_regression :
+    splitLines (assembleCharsOld (some "f\nint 7".toList) "fint7_0".toList) =
+      [[], "// f".toList, "int 7".toList, "fint7_0:".toList] ∧
     splitLines (assembleChars (some "f\nint 7".toList) "fint7_0".toList) =
-      [[], "// f".toList, "int 7".toList, "fint7_0:".toList] := by
+      [[], "// f".toList, "// int 7".toList, "fint7_0:".toList] ∧
+    splitLines (assembleChars (some "a\r\nb\u2028c\x0b".toList) "abc_1".toList) =
+      [[], "// a".toList, "// b".toList, "// c".toList, "abc_1:".toList] ∧
+    splitLines (assembleChars (some []) "_0".toList) = [[], "// ".toList, "_0:".toList] ∧
+    assemble (some "f\nint 7") "fint7_0" = "\n// f\n// int 7\nfint7_0:" ∧
+    assemble none "main_l1" = "main_l1:" := by
   decide +kernel
+
+end LabelLines
 
 end PyTealV.Proofs.C04
